@@ -96,8 +96,8 @@ pub fn sent_list_bytes(list: CommandList) -> Vec<u8> {
 }
 
 /// The character classes that matter to either side (C06 quantifier).
-pub const CLASS_ALPHABET: [&str; 11] =
-    ["a", " ", "\t", "\u{1}", "\u{1f}", "\"", "'", "\\", "\0", "\u{e9}", "\n"];
+pub const CLASS_ALPHABET: [&str; 12] =
+    ["a", " ", "\t", "\u{1}", "\u{1f}", "\"", "'", "\\", "\0", "\u{e9}", "\n", "\u{7f}"];
 
 pub fn is_special_byte(b: u8) -> bool {
     b <= 0x20 || b == b'"' || b == b'\'' || b == b'\\' || b >= 0x80
@@ -111,6 +111,7 @@ pub fn class_char() -> impl Strategy<Value = char> {
         2 => Just(' '),
         1 => Just('\t'),
         1 => prop::char::range('\u{1}', '\u{1f}').prop_filter("no LF", |c| *c != '\n'),
+        1 => Just('\u{7f}'),
         2 => Just('"'),
         2 => Just('\''),
         2 => Just('\\'),
@@ -126,6 +127,23 @@ pub fn arg_string(max_len: usize) -> impl Strategy<Value = String> {
         8 => prop::collection::vec(class_char(), 1..8usize).prop_map(|v| v.into_iter().collect()),
         3 => prop::collection::vec(class_char(), 1..=max_len.max(2)).prop_map(|v| v.into_iter().collect()),
         1 => "[a-z]{1,12}",
+        // dense in characters that double under escaping, lengths around the powers of two, with one
+        // or two blanks / tabs / letters somewhere (fixed-size scratch buffers, length estimates)
+        2 => (
+            prop_oneof![Just(8usize), Just(16), Just(32), Just(64), Just(128), Just(256), Just(1024)],
+            -1..=1i32,
+            prop::collection::vec((any::<u16>(), prop_oneof![Just(' '), Just('\t'), Just('a'), Just('\u{7f}'), Just('\u{e9}')]), 0..3usize),
+            prop::collection::vec(prop_oneof![Just('\\'), Just('"'), Just('\'')], 3),
+        )
+            .prop_map(|(base, d, holes, pool)| {
+                let n = (base as i32 + d) as usize;
+                let mut v: Vec<char> = (0..n).map(|i| pool[i % pool.len()]).collect();
+                for (at, c) in holes {
+                    let i = crate::core::pick_idx(at, n);
+                    v[i] = c;
+                }
+                v.into_iter().collect()
+            }),
         1 => (0..crate::props::c15::ODD_STRINGS.len()).prop_map(|i| crate::props::c15::ODD_STRINGS[i].to_string()),
     ]
 }
